@@ -73,6 +73,17 @@ var c11Names = []string{"root", "slice", "sorted", "filtered", "copied", "sorted
 func TestC11(t *testing.T) {
 	rapid.Check(t, func(t *rapid.T) {
 		base := withIDLast(hx.GenTable(t, hx.TableOpt{PerKind: 2, SharedEnum: true, MinEnum: 2, Rows: hx.RowsUpTo(300)}))
+		// long keys: string cells of more than 64 bytes (hashing and comparing switch strategy with the length)
+		if rapid.Bool().Draw(t, "longkeys") {
+			ci := base.Find("s1")
+			s := append([]*string(nil), base.Cols[ci].S...)
+			for r := range s {
+				if k := rapid.IntRange(0, 5).Draw(t, "longkey"); k < 3 && s[r] != nil {
+					s[r] = hx.Sp(strings.Repeat(*s[r]+"-long-key-", 7+k) + fmt.Sprint(k))
+				}
+			}
+			base.Cols[ci].S = s
+		}
 		n := base.N()
 		a := rapid.IntRange(0, n).Draw(t, "slicea")
 		b := rapid.IntRange(a, n).Draw(t, "sliceb")
@@ -138,9 +149,27 @@ func TestC11(t *testing.T) {
 		}
 		makers := make([]opMaker, nops)
 		for i := range makers {
-			mi := rapid.IntRange(0, len(c11Names)-1).Draw(t, "member")
+			mi := rapid.IntRange(0, len(c11Names)+1).Draw(t, "member")
+			if mi >= len(c11Names) {
+				mi = 4 // more weight on the member that was itself made by adding a column (its column slice has a history)
+			}
 			tab, mn := tabs[mi], c11Names[mi]
-			switch rapid.IntRange(0, 13).Draw(t, "op") {
+			switch rapid.IntRange(0, 15).Draw(t, "op") {
+			case 14, 15:
+				// add one new column (each operation its own name): siblings adding columns to the same frame at the same time
+				how := rapid.IntRange(0, 2).Draw(t, "addhow")
+				name := fmt.Sprintf("added%d", i)
+				makers[i] = opMaker{desc: fmt.Sprintf("%s: add column %s (how=%d)", mn, name, how), mk: func(f family) func() string {
+					return func() string {
+						switch how {
+						case 0:
+							return snapFrame(f.members[mi].Copy(name, "id"))
+						case 1:
+							return snapFrame(f.members[mi].WithRowNums(name))
+						}
+						return snapFrame(f.members[mi].Apply(qframe.Instruction{Fn: i + 100, DstCol: name}))
+					}
+				}}
 			case 0:
 				k := rapid.IntRange(0, 1).Draw(t, "sharedclause")
 				makers[i] = opMaker{desc: fmt.Sprintf("%s.Filter(shared clause %d: %s)", mn, k, sharedClauses[k].String()), mk: func(f family) func() string {
